@@ -414,6 +414,10 @@ class DoubleExponentialCurrent(SpikeMixin, InfernoSynapse):
             # retrieve most recent value
             res = self.pos_current_.peek() - self.neg_current_.peek()
 
+            # match the shape of selectors with multiple delays per synapse
+            if selector.ndim == res.ndim + 1:
+                res = res.unsqueeze(-1).expand(*selector.shape)
+
         # delayed access
         else:
             # bound the selector
